@@ -244,10 +244,10 @@ PENDING_REASON = "check designed in DESIGN.md but not yet built in this tree; no
 # rules added after the seeded rounds (DESIGN.md section 8)
 ADDED = {
  "C02": "Also (Q4) purity guards of the peephole rewrites decided by three-valued partial evaluation of the guard with the op fixed; "
-        "(Q5) the dead-variable usage state is monotone over the states its family can take. (Q6) available expressions: generation before kill; (Q7) the targets of a multiple assignment are walked with exactly foamArgc of the Values node (10 vector/count pairs in the optimizer). (Q8) variadic node constructors in the optimizer are given exactly the number of children they are told (rules/variadic.py). (Q9) no comparison predicate is applied to two identical operands in the optimizer (rules/selfcompare.py, with a generated positive control).",
+        "(Q5) the dead-variable usage state is monotone over the states its family can take. (Q6) available expressions: generation before kill; (Q7) the targets of a multiple assignment are walked with exactly foamArgc of the Values node (10 vector/count pairs in the optimizer). (Q8) variadic node constructors in the optimizer are given exactly the number of children they are told (rules/variadic.py). (Q9) no comparison predicate is applied to two identical operands in the optimizer (rules/selfcompare.py, with a generated positive control). (Q10) the copy recogniser and the copied-variable extractor of copy propagation look through the same number of casts; (Q11) every integer division in the constant folder whose divisor is an operand declines when that operand is zero.",
  "C03": "Also (T4) per builtin, interpreter case == C form computed from gc0Builtin's source (abstract walk of the generator for the fixed "
         "tag); (T5) no CCode fragment built by the generator is dropped; (T6) the state saved at a try block covers every interpreter "
-        "register a normal return restores. (T7) the C printer parenthesises as the C grammar requires and separates a prefix operator from a prefix operand; (T8) in gccReturn no exit avoids the foamProgUsesFluids test and the fluid side carries gc0PopFluid (CFG). (T9) the same count agreement for ccoNew/foamNew in the C generator and printer; (T10) the C printer writes a non-printable byte of a string constant as a three-digit octal escape of the unsigned byte. (T11) the same variant/tag agreement for the single-tag handlers of gccExpr, gccCmd and gccRef. (T12) a foreign runtime entry that the interpreter emulates through a separate copy of the routine (fiStrHash: strHash / localStrHash) has isomorphic copies, local types included.",
+        "register a normal return restores. (T7) the C printer parenthesises as the C grammar requires and separates a prefix operator from a prefix operand; (T8) in gccReturn no exit avoids the foamProgUsesFluids test and the fluid side carries gc0PopFluid (CFG). (T9) the same count agreement for ccoNew/foamNew in the C generator and printer; (T10) the C printer writes a non-printable byte of a string constant as a three-digit octal escape of the unsigned byte. (T11) the same variant/tag agreement for the single-tag handlers of gccExpr, gccCmd and gccRef. (T12) a foreign runtime entry that the interpreter emulates through a separate copy of the routine (fiStrHash: strHash / localStrHash) has isomorphic copies, local types included. (T13) every case of the interpreter's statement dispatch either reads from the tape or belongs to a node kind without operands.",
  "C04": "The C form is computed from the generator's source (rules/ccoeval.py), not read off by hand. Also (B5) the ring-algebra cells of "
         "the peephole table, forwarded from C02-Q1. (B6) every Bool-returning builtin yields a canonical 0/1 in all copies; (B7) no int-width shift by a variable count inside 64-bit arithmetic; (B8) the word add/multiply steps take the carry of every two-term sum.",
  "C05": "Also (W4 reduce) shape of foamSIntReduce (mask/width, one ShiftUp+Or per chunk, sign; other loop shapes are refused as analysis "
